@@ -131,3 +131,436 @@ Theorem journal_cat_correct :
   = concat (map render_cat (window e_time A B j)).
 Proof. exact journal_cat_correct_l. Qed.
 Print Assumptions journal_cat_correct.
+
+(* ==================================================================== the ten --journal-output renderings
+   (Model/JournalRender.v; configuration [src_cfg] regenerated from the source by tools/gen/journal.py) *)
+From S4.Model Require Import PrintCal Strftime CliDt StrftimeParse StrftimeRt JournalRender.
+From S4.Gen Require Import JournalTables.
+From S4.Proofs Require Import StrftimeRoundtrip JournalRenderBasic JournalRenderMessage JournalRenderTime JournalRenderMono JournalRenderShort JournalRenderVerbose JournalRenderCfg.
+Open Scope list_scope.
+Open Scope Z_scope.
+
+(* the configuration of the current source satisfies the conditions the theorems below ask for *)
+Theorem render_src_cfg_ok : cfg_ok src_cfg = true.
+Proof. exact src_cfg_ok_l. Qed.
+Print Assumptions render_src_cfg_ok.
+
+(* The window never looks at the rendering: for each of the ten renderings the entries handed to the
+   renderer are exactly the in-window entries, each once, in journal order. *)
+Theorem render_window_independent :
+  forall sd_seek_head sd_seek_realtime, J1_contract sd_seek_head sd_seek_realtime ->
+  forall cfg ev o j A B, nondecreasing (times j) -> valid_realtimes (times j) -> bound_rep A -> bound_rep B ->
+  map fst (journal_trace10 sd_seek_head sd_seek_realtime stop_after cfg ev o A B j) = window e_time A B j.
+Proof. exact journal_trace10_entries_l. Qed.
+Print Assumptions render_window_independent.
+
+(* Every rendering of a run is the concatenation, over the in-window entries, of a function of the
+   single entry (plus the run's zone offset and host bit): nothing is carried from entry to entry. *)
+Theorem render_stdout_entrywise :
+  forall sd_seek_head sd_seek_realtime, J1_contract sd_seek_head sd_seek_realtime ->
+  forall cfg ev o j A B, cfg_formats_ok cfg = true ->
+  nondecreasing (times j) -> valid_realtimes (times j) -> bound_rep A -> bound_rep B ->
+  journal_stdout10 sd_seek_head sd_seek_realtime stop_after cfg ev o A B j
+  = concat (map (fun e => entry_bytes (next_entry cfg ev o e)) (window e_time A B j)).
+Proof. exact journal_stdout10_concat_l. Qed.
+Print Assumptions render_stdout_entrywise.
+
+(* without the condition on the formats: output up to the first panic *)
+Theorem render_stdout_correct :
+  forall sd_seek_head sd_seek_realtime, J1_contract sd_seek_head sd_seek_realtime ->
+  forall cfg ev o j A B, nondecreasing (times j) -> valid_realtimes (times j) -> bound_rep A -> bound_rep B ->
+  journal_stdout10 sd_seek_head sd_seek_realtime stop_after cfg ev o A B j
+  = emit (map (next_entry cfg ev o) (window e_time A B j)).
+Proof. exact journal_stdout10_correct_l. Qed.
+Print Assumptions render_stdout_correct.
+
+Theorem render_never_panics :
+  forall cfg ev o e, cfg_formats_ok cfg = true -> next_entry cfg ev o e <> NPanic.
+Proof. exact next_entry_no_panic_l. Qed.
+Print Assumptions render_never_panics.
+
+(* Number of records printed: every in-window entry for the nine renderings other than cat, the
+   entries that carry MESSAGE for cat. *)
+Theorem render_records_printed :
+  forall sd_seek_head sd_seek_realtime, J1_contract sd_seek_head sd_seek_realtime ->
+  forall cfg ev o j A B, cfg_formats_ok cfg = true ->
+  nondecreasing (times j) -> valid_realtimes (times j) -> bound_rep A -> bound_rep B ->
+  journal_printed10 sd_seek_head sd_seek_realtime stop_after cfg ev o A B j
+  = if is_cat (cfg_dispatch cfg o)
+    then length (filter (fun e => is_some (get_data (cfg_k_cat cfg) e)) (window e_time A B j))
+    else length (window e_time A B j).
+Proof. exact journal_printed10_l. Qed.
+Print Assumptions render_records_printed.
+
+Theorem render_records_same_for_all :
+  forall sd_seek_head sd_seek_realtime cfg ev o1 o2 j A B,
+  J1_contract sd_seek_head sd_seek_realtime -> cfg_formats_ok cfg = true ->
+  is_cat (cfg_dispatch cfg o1) = false -> is_cat (cfg_dispatch cfg o2) = false ->
+  nondecreasing (times j) -> valid_realtimes (times j) -> bound_rep A -> bound_rep B ->
+  journal_printed10 sd_seek_head sd_seek_realtime stop_after cfg ev o1 A B j
+  = journal_printed10 sd_seek_head sd_seek_realtime stop_after cfg ev o2 A B j
+  /\ map fst (journal_trace10 sd_seek_head sd_seek_realtime stop_after cfg ev o1 A B j)
+     = map fst (journal_trace10 sd_seek_head sd_seek_realtime stop_after cfg ev o2 A B j).
+Proof. exact journal_printed10_same_l. Qed.
+Print Assumptions render_records_same_for_all.
+
+Theorem render_src_only_cat_is_cat : forall o, is_cat (cfg_dispatch src_cfg o) = true <-> o = OCat.
+Proof. exact src_is_cat. Qed.
+Print Assumptions render_src_only_cat_is_cat.
+
+Example render_records_example :
+  let j := [w_entry_nomsg; w_entry1] in
+  nondecreasing (times j) /\ valid_realtimes (times j) /\
+  journal_printed10 ref_seek_head ref_seek_realtime stop_after src_cfg (mkEnv 0%Z true) OShort None None j = 2%nat /\
+  journal_printed10 ref_seek_head ref_seek_realtime stop_after src_cfg (mkEnv 0%Z true) OVerbose None None j = 2%nat /\
+  journal_printed10 ref_seek_head ref_seek_realtime stop_after src_cfg (mkEnv 0%Z true) OCat None None j = 1%nat.
+Proof. exact journal_printed10_example. Qed.
+Print Assumptions render_records_example.
+
+(* No entry silently disappears: nine renderings print a text that ends with a newline (never
+   empty) for every entry; cat prints MESSAGE + newline exactly when the entry has one. *)
+Theorem render_never_empty :
+  forall cfg ev o e, cfg_formats_ok cfg = true ->
+  (is_cat (cfg_dispatch cfg o) = false -> exists b, next_entry cfg ev o e = NFound (b ++ [NL])) /\
+  (is_cat (cfg_dispatch cfg o) = true ->
+     match get_data (cfg_k_cat cfg) e with
+     | Some m => next_entry cfg ev o e = NFound (m ++ [NL])
+     | None => next_entry cfg ev o e = NErrIgnore
+     end).
+Proof. exact next_entry_found_l. Qed.
+Print Assumptions render_never_empty.
+
+(* ... and the statement "never empty for every rendering" is false for cat: an entry without MESSAGE
+   (the entries of the crafted journals of the check) prints nothing — as with journalctl -o cat *)
+Theorem render_nonempty_refuted :
+  exists o e ev, cfg_ok src_cfg = true /\ wf_entry e /\ entry_bytes (next_entry src_cfg ev o e) = [].
+Proof. exact render_nonempty_refuted_l. Qed.
+Print Assumptions render_nonempty_refuted.
+
+(* Every rendering contains the MESSAGE bytes, followed by a newline, verbatim (whatever the bytes
+   are: multi-line and non-UTF-8 values included; single-line printable text is the case in which
+   that block is the end of a line of its own). *)
+Theorem render_message_verbatim :
+  forall cfg ev o e m, cfg_ok cfg = true -> keys_wf (e_fields e) ->
+  In (cfg_k_msg cfg, m) (firstn (emerg_min cfg) (e_fields e)) ->
+  (forall v, In (cfg_k_msg cfg, v) (e_fields e) -> v = m) ->
+  exists b, next_entry cfg ev o e = NFound b /\ infix (m ++ [NL]) b.
+Proof. exact message_verbatim_l. Qed.
+Print Assumptions render_message_verbatim.
+
+Example render_message_verbatim_hyps :
+  cfg_ok src_cfg = true /\ keys_wf (e_fields w_entry1) /\
+  In (cfg_k_msg src_cfg, s2b "Demoting known real-time threads.") (firstn (emerg_min src_cfg) (e_fields w_entry1)) /\
+  (forall v, In (cfg_k_msg src_cfg, v) (e_fields w_entry1) -> v = s2b "Demoting known real-time threads.").
+Proof. exact message_verbatim_example. Qed.
+Print Assumptions render_message_verbatim_hyps.
+
+(* short*: the line ends with ": " MESSAGE "\n"; with several MESSAGE objects it is one of them *)
+Theorem render_short_message :
+  forall cfg ev fmt mono e m, cfg_ok cfg = true -> keys_wf (e_fields e) -> (mono = false -> fmt_accepted fmt = true) ->
+  In (cfg_k_msg cfg, m) (firstn (cfg_emerg_short cfg) (e_fields e)) ->
+  (forall v, In (cfg_k_msg cfg, v) (e_fields e) -> v = m) ->
+  exists h, render_short cfg ev fmt mono e = Some (h ++ 58%N :: SP :: m ++ [NL]).
+Proof. exact short_message_l. Qed.
+Print Assumptions render_short_message.
+
+Theorem render_short_message_some :
+  forall cfg ev fmt mono e, cfg_ok cfg = true -> keys_wf (e_fields e) -> (mono = false -> fmt_accepted fmt = true) ->
+  (exists v, In (cfg_k_msg cfg, v) (firstn (cfg_emerg_short cfg) (e_fields e))) ->
+  exists h m, In (cfg_k_msg cfg, m) (firstn (cfg_emerg_short cfg) (e_fields e)) /\
+              render_short cfg ev fmt mono e = Some (h ++ 58%N :: SP :: m ++ [NL]).
+Proof. exact short_message_some_l. Qed.
+Print Assumptions render_short_message_some.
+
+Theorem render_short_no_message :
+  forall cfg e, cfg_ok cfg = true -> keys_wf (e_fields e) ->
+  (forall f, In f (firstn (cfg_emerg_short cfg) (e_fields e)) -> fst f <> cfg_k_msg cfg) ->
+  sf_msg (short_found cfg e) = None.
+Proof. exact short_no_message_l. Qed.
+Print Assumptions render_short_no_message.
+
+(* verbose: the body prints every binding of the field map exactly once, each as FIELD_BEG key "="
+   value "\n" (indentation), in some order *)
+Theorem render_verbose_body_permutation :
+  forall cfg m, exists l, Permutation.Permutation l m /\ verbose_body cfg m = concat (map (vl cfg) l).
+Proof. exact verbose_body_perm_l. Qed.
+Print Assumptions render_verbose_body_permutation.
+
+Theorem render_verbose_message :
+  forall cfg ev e, cfg_ok cfg = true -> keys_wf (e_fields e) ->
+  (exists v, In (cfg_k_msg cfg, v) (firstn (cfg_emerg_verbose cfg) (e_fields e))) ->
+  exists b m, In (cfg_k_msg cfg, m) (firstn (cfg_emerg_verbose cfg) (e_fields e)) /\
+              render_verbose cfg ev e = Some b /\ infix (vline cfg (cfg_k_msg cfg) m) b.
+Proof. exact verbose_message_l. Qed.
+Print Assumptions render_verbose_message.
+
+(* export: single-line printable text is carried as the line KEY=value *)
+Theorem render_export_message_text :
+  forall e k m, In (k, m) (enumerated e) -> text_safe (data_of (k, m)) = true ->
+  infix (k ++ EQ :: m ++ [NL]) (render_export e).
+Proof. exact export_message_text_l. Qed.
+Print Assumptions render_export_message_text.
+
+(* The time shown is the receive time (DT_USES_SOURCE_OVERRIDE = RealtimeTimestamp, Issue #101):
+   _SOURCE_REALTIME_TIMESTAMP never changes a timestamp text. *)
+Theorem render_shows_receive_time :
+  forall cfg e, cfg_override cfg = Some DsRealtime -> shown_us cfg e = e_time e.
+Proof. exact shown_is_receive_time_l. Qed.
+Print Assumptions render_shows_receive_time.
+
+(* Print the receive time with a format of the strftime subset of C13, read the text back with the
+   parser model of C13: the receive time truncated to the printed precision, for every instant of
+   the calendar range and every whole-minute zone offset. *)
+Theorem render_dt_text_roundtrip :
+  forall cfg ev fmt its p e, cfg_override cfg = Some DsRealtime ->
+  split_fmt fmt [] = [SPlain fmt] -> parse_fmt fmt = Some its -> rt_ok (expand its) p = true ->
+  let t := e_time e * 1000 in
+  let off := env_off ev in
+  off mod 60 = 0 -> -86400 < off < 86400 ->
+  LOCAL_LO * 1000000000 <= t + off * 1000000000 < LOCAL_HI * 1000000000 ->
+  (has NTimestamp (expand its) = true -> 0 <= t) ->
+  exists s, entry_dt_text cfg ev fmt e = Some s /\
+    chrono_parse fmt (has_z (expand its)) (if has NTimestamp (expand its) then 0 else off) (classify s)
+    = StrftimeParse.POk (t / result_unit p (expand its) * result_unit p (expand its)).
+Proof. exact dt_text_roundtrip_l. Qed.
+Print Assumptions render_dt_text_roundtrip.
+
+(* the three renderings of the current source whose timestamp can be read back, for every valid
+   receive time (libsystemd VALID_REALTIME: 0 < t < 2^55 us) and whole-minute offset *)
+Theorem render_short_unix_is_entry_instant :
+  forall ev e, 0 < e_time e < 36028797018963968 -> env_off ev mod 60 = 0 -> -86400 < env_off ev < 86400 ->
+  exists s, next_entry src_cfg ev OShortUnix e = NFound (s ++ short_tail (short_found src_cfg e)) /\
+    chrono_parse (fmt_of OShortUnix) false 0 (classify s) = StrftimeParse.POk (e_time e * 1000).
+Proof. exact short_unix_roundtrip_l. Qed.
+Print Assumptions render_short_unix_is_entry_instant.
+
+Theorem render_short_iso_precise_parses_back :
+  forall ev e, 0 < e_time e < 36028797018963968 -> env_off ev mod 60 = 0 -> -86400 < env_off ev < 86400 ->
+  exists s, next_entry src_cfg ev OShortIsoPrecise e = NFound (s ++ short_tail (short_found src_cfg e)) /\
+    chrono_parse (fmt_of OShortIsoPrecise) true (env_off ev) (classify s) = StrftimeParse.POk (e_time e * 1000).
+Proof. exact short_iso_precise_roundtrip_l. Qed.
+Print Assumptions render_short_iso_precise_parses_back.
+
+Theorem render_short_iso_parses_back :
+  forall ev e, 0 < e_time e < 36028797018963968 -> env_off ev mod 60 = 0 -> -86400 < env_off ev < 86400 ->
+  exists s, next_entry src_cfg ev OShortIso e = NFound (s ++ short_tail (short_found src_cfg e)) /\
+    chrono_parse (fmt_of OShortIso) false (env_off ev) (classify s)
+    = StrftimeParse.POk (e_time e / 1000000 * 1000000000).
+Proof. exact short_iso_roundtrip_l. Qed.
+Print Assumptions render_short_iso_parses_back.
+
+Example render_roundtrip_example :
+  let e := mkEntry 1702683843814918 [] None [] in
+  let ev := mkEnv (-12600) true in
+  0 < e_time e < 36028797018963968 /\ env_off ev mod 60 = 0 /\ -86400 < env_off ev < 86400 /\
+  next_entry src_cfg ev OShortIsoPrecise e = NFound (s2b "2023-12-15T20:14:03.814918-0330" ++ [NL]) /\
+  next_entry src_cfg ev OShortUnix e = NFound (s2b "1702683843.814918" ++ [NL]) /\
+  next_entry src_cfg ev OShortIso e = NFound (s2b "2023-12-15 20:14:03" ++ [NL]) /\
+  next_entry src_cfg ev OShortFull e = NFound (s2b "Fri 2023-12-15 20:14:03 -03:30" ++ [NL]) /\
+  next_entry src_cfg ev OShort e = NFound (s2b "Dec 15 20:14:03" ++ [NL]).
+Proof. exact roundtrip_example. Qed.
+Print Assumptions render_roundtrip_example.
+
+(* the formats with month name, weekday, zone name, related to the ones above (all t, all offsets) *)
+Theorem render_short_text :
+  forall t off, let c := civil_of t off in
+  jstrftime (fmt_of OShort) t off = Some (month_abbr (c_mon c) ++ [32%N] ++ two (c_day c) ++ [32%N] ++ hms c).
+Proof. exact short_text_l. Qed.
+Print Assumptions render_short_text.
+
+Theorem render_short_precise_text :
+  forall t off, exists s, jstrftime (fmt_of OShort) t off = Some s /\
+    jstrftime (fmt_of OShortPrecise) t off = Some (s ++ [46%N] ++ micros (civil_of t off)).
+Proof. exact short_precise_text_l. Qed.
+Print Assumptions render_short_precise_text.
+
+Theorem render_short_full_text :
+  forall t off, exists s, jstrftime (fmt_of OShortIso) t off = Some s /\
+    jstrftime (fmt_of OShortFull) t off = Some (wday_abbr (local_days t off) ++ [32%N] ++ s ++ [32%N] ++ zone_name off).
+Proof. exact short_full_text_l. Qed.
+Print Assumptions render_short_full_text.
+
+Theorem render_verbose_header_text :
+  forall t off, exists s, jstrftime (fmt_of OShortIso) t off = Some s /\
+    jstrftime (cfg_fmt_verbose src_cfg) t off
+    = Some (wday_abbr (local_days t off) ++ [32%N] ++ s ++ [46%N] ++ micros (civil_of t off) ++ [32%N] ++ zone_name off).
+Proof. exact verbose_text_l. Qed.
+Print Assumptions render_verbose_header_text.
+
+Theorem render_weekday_of_printed_date :
+  forall t off, let c := civil_of t off in
+  local_days t off = Calendar.days_from_civil (c_year c) (c_mon c) (c_day c).
+Proof. exact wday_of_printed_date_l. Qed.
+Print Assumptions render_weekday_of_printed_date.
+
+Theorem render_zone_name_is_colon_z : forall off, off mod 60 = 0 -> zone_name off = fmt_off true off.
+Proof. exact zone_name_colon_z. Qed.
+Print Assumptions render_zone_name_is_colon_z.
+
+Example render_zone_name_example : (-12600) mod 60 = 0 /\ zone_name (-12600) = s2b "-03:30" /\ zone_name 20715 = s2b "+05:45:15".
+Proof. vm_compute. repeat split; reflexivity. Qed.
+Print Assumptions render_zone_name_example.
+
+(* short-monotonic: `mu as f64 / 1000000.0` printed with {:>12.6} is the exact decimal expansion
+   below 2^52 microseconds; not above 2^53 *)
+Theorem render_monotonic_exact :
+  forall mu : N, (mu < 4503599627370496)%N ->
+  fmt_mono src_cfg mu
+  = pad_left 12 (Strftime.dec (Z.of_N mu / 1000000) ++ 46%N :: digits_n 6 (Z.of_N mu mod 1000000)).
+Proof. exact fmt_mono_exact_l. Qed.
+Print Assumptions render_monotonic_exact.
+
+Theorem render_monotonic_scaled_exact : forall mu, 0 <= mu < 2 ^ 52 -> mono_scaled 1000000 6 mu = mu.
+Proof. exact mono_scaled_exact_l. Qed.
+Print Assumptions render_monotonic_scaled_exact.
+
+Example render_monotonic_examples :
+  fmt_mono src_cfg 74212842 = s2b "   74.212842" /\
+  fmt_mono src_cfg 13446824908 = s2b "13446.824908" /\
+  fmt_mono src_cfg 0 = s2b "    0.000000" /\
+  fmt_mono src_cfg 999999999999999 = s2b "999999999.999999".
+Proof. exact fmt_mono_examples. Qed.
+Print Assumptions render_monotonic_examples.
+
+Theorem render_monotonic_inexact_refuted :
+  exists mu, 0 <= mu < 2 ^ 64 /\ mono_scaled 1000000 6 mu <> mu.
+Proof. exact mono_inexact_refuted_l. Qed.
+Print Assumptions render_monotonic_inexact_refuted.
+
+(* The host: seven renderings are functions of the entry and the zone alone ... *)
+Theorem render_host_independent :
+  forall off b1 b2 o e, o <> OShortMonotonic -> o <> OVerbose -> o <> OExport ->
+  next_entry src_cfg (mkEnv off b1) o e = next_entry src_cfg (mkEnv off b2) o e.
+Proof. exact src_host_independent. Qed.
+Print Assumptions render_host_independent.
+
+(* ... the other three are not, as long as get_monotonic_usec asks the HOST for its boot id first and gives
+   up when that fails although the journal holds the value (FINDING host_boot_id_unreadable;
+   cfg_with_host_call = the scraped configuration with that call) *)
+Theorem render_host_dependence_refuted :
+  exists e off,
+    next_entry cfg_with_host_call (mkEnv off true) OShortMonotonic e <> next_entry cfg_with_host_call (mkEnv off false) OShortMonotonic e /\
+    next_entry cfg_with_host_call (mkEnv off true) OVerbose e <> next_entry cfg_with_host_call (mkEnv off false) OVerbose e /\
+    next_entry cfg_with_host_call (mkEnv off true) OExport e <> next_entry cfg_with_host_call (mkEnv off false) OExport e /\
+    length (export_fields (host_view cfg_with_host_call (mkEnv off false) e)) <> length (export_fields e) /\
+    next_entry cfg_with_host_call (mkEnv off false) OShortMonotonic e
+    = NFound (s2b "[            ] fink rtkit-daemon[1170]: Demoting known real-time threads." ++ [NL]).
+Proof. exact host_dependence_refuted_l. Qed.
+Print Assumptions render_host_dependence_refuted.
+
+(* without that call (the repaired get_monotonic_usec) every rendering is a function of entry and zone *)
+Theorem render_host_independent_without_the_call :
+  forall cfg off b1 b2 o e, cfg_mono_needs_host cfg = false ->
+  next_entry cfg (mkEnv off b1) o e = next_entry cfg (mkEnv off b2) o e.
+Proof. exact host_independent_all_l. Qed.
+Print Assumptions render_host_independent_without_the_call.
+
+Example render_host_independent_repaired_cfg : cfg_mono_needs_host (set_needs_host false src_cfg) = false.
+Proof. reflexivity. Qed.
+Print Assumptions render_host_independent_repaired_cfg.
+
+(* when the host's boot id is readable (or is not asked for) the export rendering is the one of the
+   theorems above *)
+Theorem render_export_host_ok :
+  forall cfg ev e, cfg_mono_needs_host cfg = false \/ env_boot_ok ev = true -> host_view cfg ev e = e.
+Proof. exact host_view_ok. Qed.
+Print Assumptions render_export_host_ok.
+
+(* FINDING verbose_multivalued_field: verbose keeps one value per field name (HashMap): a stored data
+   object of a multi-valued field is missing from the verbose text although export prints it *)
+Theorem render_verbose_multivalued_refuted :
+  exists e k v b ev, wf_entry e /\ In (k, v) (e_fields e) /\
+    next_entry src_cfg ev OVerbose e = NFound b /\ ~ infix (vline src_cfg k v) b /\
+    infix (print_field_safe (k, v)) (render_export e).
+Proof. exact verbose_multivalued_refuted_l. Qed.
+Print Assumptions render_verbose_multivalued_refuted.
+
+Example render_witness_renderings :
+  let ev := mkEnv (-12600)%Z true in
+  next_entry src_cfg ev OShort w_entry1 = NFound (s2b "Dec 15 20:14:03 fink rtkit-daemon[1170]: Demoting known real-time threads." ++ [NL]) /\
+  next_entry src_cfg ev OShortMonotonic w_entry1 = NFound (s2b "[13446.824908] fink rtkit-daemon[1170]: Demoting known real-time threads." ++ [NL]) /\
+  next_entry src_cfg ev OShortFull w_entry1 = NFound (s2b "Fri 2023-12-15 20:14:03 -03:30 fink rtkit-daemon[1170]: Demoting known real-time threads." ++ [NL]) /\
+  next_entry src_cfg ev OCat w_entry1 = NFound (s2b "Demoting known real-time threads." ++ [NL]) /\
+  next_entry src_cfg ev OShort w_entry_nomsg = NFound (s2b "Dec 15 20:14:03 fink rtkit-daemon[1170]" ++ [NL]).
+Proof. exact w_entry1_renderings. Qed.
+Print Assumptions render_witness_renderings.
+
+(* Which fields short* looks up, with the fallbacks: for an entry whose enumerated data objects have
+   pairwise different names the text after the timestamp is
+     [" " _HOSTNAME] [" " (SYSLOG_IDENTIFIER else _COMM)] ["[" (_PID else SYSLOG_PID) "]"] [": " MESSAGE] "\n"
+   (short_tail of the six looked-up values); the early end of the enumeration loop never changes it. *)
+Theorem render_short_tail_spec :
+  forall cfg e, cfg_ok cfg = true -> need_five cfg -> keys_wf (e_fields e) ->
+  NoDup (map fst (firstn (cfg_emerg_short cfg) (e_fields e))) ->
+  short_tail (short_found cfg e) = short_tail (sf_lookup cfg (firstn (cfg_emerg_short cfg) (e_fields e))).
+Proof. exact short_tail_spec_l. Qed.
+Print Assumptions render_short_tail_spec.
+
+Theorem render_src_need_five : need_five src_cfg.
+Proof. exact src_need_five. Qed.
+Print Assumptions render_src_need_five.
+
+Example render_short_tail_spec_hyps :
+  keys_wf (e_fields w_entry1) /\ NoDup (map fst (firstn (cfg_emerg_short src_cfg) (e_fields w_entry1))) /\
+  short_tail (sf_lookup src_cfg (firstn (cfg_emerg_short src_cfg) (e_fields w_entry1)))
+  = s2b " fink rtkit-daemon[1170]: Demoting known real-time threads." ++ [NL].
+Proof. exact short_tail_spec_example. Qed.
+Print Assumptions render_short_tail_spec_hyps.
+
+(* verbose: field order.  The map has pairwise different keys; the body is the lines of the names of
+   FIELD_ORDER_VERBOSE the map binds, in table order, then the other bindings sorted by (name, value),
+   then _SOURCE_REALTIME_TIMESTAMP; every line is FIELD_BEG name "=" value "\n". *)
+Theorem render_verbose_map_keys_distinct : forall cfg ev e, NoDup (map fst (verbose_map cfg ev e)).
+Proof. exact verbose_map_keys. Qed.
+Print Assumptions render_verbose_map_keys_distinct.
+
+Theorem render_verbose_body_order :
+  forall cfg m, NoDup (cfg_order cfg) -> NoDup (map fst m) ->
+  let m1 := filter (key_neq (cfg_k_source_rt cfg)) m in
+  verbose_body cfg m
+  = concat (map (vl cfg) (ordered_part (cfg_order cfg) m1
+                          ++ sort_fields (unordered_part (cfg_order cfg) m1)
+                          ++ match assoc (cfg_k_source_rt cfg) m with
+                             | Some s => [(cfg_k_source_rt cfg, s)]
+                             | None => []
+                             end)).
+Proof. exact verbose_body_order_l. Qed.
+Print Assumptions render_verbose_body_order.
+
+Theorem render_verbose_rest_sorted : forall l, Sorted.Sorted field_le (sort_fields l).
+Proof. exact sort_fields_sorted_l. Qed.
+Print Assumptions render_verbose_rest_sorted.
+
+Theorem render_src_order_nodup : NoDup (cfg_order src_cfg).
+Proof. exact src_order_nodup. Qed.
+Print Assumptions render_src_order_nodup.
+
+Example render_verbose_order_example :
+  next_entry src_cfg (mkEnv 0%Z true) OVerbose w_entry1
+  = NFound (s2b "Fri 2023-12-15 23:44:03.814918 +00:00 [s=301da6bc860f44808d5e36ddb58400db;i=6bd;b=1809e3bbbb334d62937ce8827b16b5f0;m=3217e43cc;t=60c94f9ace606;x=4e442f8e0c086ec5]" ++ [NL]
+            ++ s2b "    _TRANSPORT=syslog" ++ [NL] ++ s2b "    _HOSTNAME=fink" ++ [NL] ++ s2b "    PRIORITY=6" ++ [NL]
+            ++ s2b "    _PID=1170" ++ [NL] ++ s2b "    _COMM=rtkit-daemon" ++ [NL]
+            ++ s2b "    MESSAGE=Demoting known real-time threads." ++ [NL]
+            ++ s2b "    SYSLOG_IDENTIFIER=rtkit-daemon" ++ [NL] ++ s2b "    SYSLOG_PID=1170" ++ [NL]
+            ++ s2b "    __MONOTONIC_TIMESTAMP=13446824908" ++ [NL]
+            ++ s2b "    _SOURCE_REALTIME_TIMESTAMP=1702683843818187" ++ [NL]).
+Proof. exact verbose_order_example. Qed.
+Print Assumptions render_verbose_order_example.
+
+(* satisfiability of the hypotheses of render_short_no_message, render_export_message_text, render_shows_receive_time *)
+Example render_short_no_message_hyps :
+  keys_wf (e_fields w_entry_nomsg) /\
+  (forall f, In f (firstn (cfg_emerg_short src_cfg) (e_fields w_entry_nomsg)) -> fst f <> cfg_k_msg src_cfg) /\
+  short_tail (short_found src_cfg w_entry_nomsg) = s2b " fink rtkit-daemon[1170]" ++ [NL].
+Proof. exact short_no_message_example. Qed.
+Print Assumptions render_short_no_message_hyps.
+
+Example render_export_message_text_hyps :
+  In (s2b "MESSAGE", s2b "Demoting known real-time threads.") (enumerated w_entry1) /\
+  text_safe (data_of (s2b "MESSAGE", s2b "Demoting known real-time threads.")) = true.
+Proof. exact export_message_text_example. Qed.
+Print Assumptions render_export_message_text_hyps.
+
+Example render_src_override : cfg_override src_cfg = Some DsRealtime.
+Proof. exact src_override_example. Qed.
+Print Assumptions render_src_override.
